@@ -56,33 +56,30 @@ def analyse(prop, tier, repo_root, seed=0, quiet=False):
 
 
 class budget(object):
-    """with budget(seconds): ...  raises AnalysisError inside the block when it runs longer (nested inside the
-    global watchdog, which is re-armed with its remaining time afterwards)."""
+    """with budget(seconds): ...  raises AnalysisError inside the block when it uses more CPU time than that.  CPU time
+    (ITIMER_VIRTUAL), not wall time, so a loaded machine (the thorough tier runs 16 jobs) does not turn into an
+    analysis error; the global wall-clock watchdog stays armed independently."""
 
     def __init__(self, seconds, what=''):
         self.seconds, self.what = seconds, what
 
     def __enter__(self):
         import signal
-        import time
-        self.t0 = time.time()
-        self.old_handler = signal.getsignal(signal.SIGALRM)
-        self.remaining = signal.alarm(0)
+        self.old_handler = signal.getsignal(signal.SIGVTALRM)
+        self.outer = signal.setitimer(signal.ITIMER_VIRTUAL, 0)[0]
 
         def on_alarm(signum, frame):
-            raise AnalysisError('time budget of %d s exceeded in %s (symbolic expression growth?)' % (self.seconds, self.what))
-        signal.signal(signal.SIGALRM, on_alarm)
-        signal.alarm(self.seconds)
+            raise AnalysisError('CPU time budget of %d s exceeded in %s (symbolic expression growth?)' % (self.seconds, self.what))
+        signal.signal(signal.SIGVTALRM, on_alarm)
+        signal.setitimer(signal.ITIMER_VIRTUAL, self.seconds)
         return self
 
     def __exit__(self, *exc):
         import signal
-        import time
-        signal.alarm(0)
-        signal.signal(signal.SIGALRM, self.old_handler)
-        if self.remaining:
-            left = max(1, int(self.remaining - (time.time() - self.t0)))
-            signal.alarm(left)
+        used = self.seconds - signal.setitimer(signal.ITIMER_VIRTUAL, 0)[0]
+        signal.signal(signal.SIGVTALRM, self.old_handler)
+        if self.outer:
+            signal.setitimer(signal.ITIMER_VIRTUAL, max(0.5, self.outer - used))
         return False
 
 
